@@ -114,6 +114,12 @@ def entry_points(rng):
     E.append(("TsdFrame()", lambda u: canon(nap.TsdFrame(V(tks, u), np.stack([d, d], 1), time_units=u))))
     E.append(("TsdTensor()", lambda u: canon(nap.TsdTensor(V(tks, u), np.stack([d, d], 1).reshape(len(tks), 2, 1), time_units=u))))
     E.append(("IntervalSet()", lambda u: canon(nap.IntervalSet(start=V(epk[0], u), end=V(epk[1], u), time_units=u))))
+    # degenerate input the constructor repairs (touching: 1 us trimmed from the earlier one; overlapping; zero-length) - the repair must not depend on the unit
+    st2 = [lo, lo + 10**6, lo + 3 * 10**6, lo + 5 * 10**6, lo + 5 * 10**6 + 500000, lo + 9 * 10**6]
+    en2 = [lo + 10**6, lo + 2 * 10**6, lo + 4 * 10**6, lo + 6 * 10**6, lo + 7 * 10**6, lo + 9 * 10**6]
+    E.append(("IntervalSet(touching,overlapping,empty)", lambda u: canon(nap.IntervalSet(start=V(st2, u), end=V(en2, u), time_units=u))))
+    E.append(("IntervalSet(touching pairs)", lambda u: canon(nap.IntervalSet(np.stack([V(st2[:3], u), V(en2[:3], u)], 1), time_units=u))))
+    E.append(("IntervalSet(touching).tot_length", lambda u: back(nap.IntervalSet(start=V(st2[:2], u), end=V(en2[:2], u), time_units=u).tot_length(u), u)))
     E.append(("IntervalSet(unsorted)", lambda u: canon(nap.IntervalSet(start=V(epk[0][::-1], u), end=V(epk[1][::-1], u), time_units=u))))
     E.append(("TsGroup(arrays)", lambda u: canon(nap.TsGroup({2: V(tk, u), 0: V(tks[::2], u)}, time_units=u))))
     E.append(("TsGroup(arrays,support)", lambda u: canon(nap.TsGroup({2: V(tk, u), 0: V(tks[::2], u)}, time_units=u, time_support=ep_s()))))
